@@ -29,6 +29,10 @@ class HarnessBug(BaseException):
     """A defect of the harness (unexpected URL, malformed call); never caught by the code under test."""
 
 
+class UpdateLivelock(BaseException):
+    """One service entry point made more GitHub calls than any terminating update can (raised by the fake)."""
+
+
 # ---------------------------------------------------------------------------------------------------------------------
 # gidgethub stand-in
 
@@ -133,6 +137,7 @@ class FakeGitHub:
         self.gql_read = {}
         self.merges_since_refs_read = 0
         self.n_calls = 0
+        self.call_budget = None   # set by the harness before each entry point; None = unlimited
         self.paged = False
         self.assignee_posts = 0
         self.ci_status_posts = []
@@ -140,6 +145,13 @@ class FakeGitHub:
     def _tick(self):
         self.tick += 1
         return self.tick
+
+    def _call(self):
+        self.n_calls += 1
+        if self.call_budget is not None:
+            self.call_budget -= 1
+            if self.call_budget < 0:
+                raise UpdateLivelock('GitHub call budget of one update exhausted')
 
     # -- ground-truth mutations (the harness's side) ---------------------------------------------------------------
     def open_pr(self, *, head=None, approved=False, labels=(), author='ehigham'):
@@ -239,7 +251,7 @@ class FakeGitHub:
 
     # -- the client surface ---------------------------------------------------------------------------------------------
     async def getitem(self, url, *a, **k):
-        self.n_calls += 1
+        self._call()
         if url == f'/repos/{self.repo}/git/refs/heads/{self.branch}':
             self.refs_read = self._tick()
             self.merges_since_refs_read = 0
@@ -247,7 +259,7 @@ class FakeGitHub:
         raise HarnessBug(f'fake GitHub: unexpected getitem {url!r}')
 
     async def getiter(self, url, *a, **k):
-        self.n_calls += 1
+        self._call()
         if url != f'/repos/{self.repo}/pulls?state=open&base={self.branch}':
             raise HarnessBug(f'fake GitHub: unexpected getiter {url!r}')
         self.pulls_read = self._tick()
@@ -259,7 +271,7 @@ class FakeGitHub:
     _repo_re = re.compile(r'owner: "([^"]*)",\s*name: "([^"]*)"')
 
     async def post(self, url, *a, data=None, **k):
-        self.n_calls += 1
+        self._call()
         if url == '/graphql':
             q = data['query']
             m, c, r = self._num_re.search(q), self._after_re.search(q), self._repo_re.search(q)
@@ -302,7 +314,7 @@ class FakeGitHub:
         raise HarnessBug(f'fake GitHub: unexpected post {url!r}')
 
     async def put(self, url, *a, data=None, **k):
-        self.n_calls += 1
+        self._call()
         m = re.fullmatch(rf'/repos/{re.escape(self.repo)}/pulls/(\d+)/merge', url)
         if not m:
             raise HarnessBug(f'fake GitHub: unexpected put {url!r}')
